@@ -6,6 +6,8 @@ into digit groups (separators, prefixes) and the layout of the rendered text are
 to the implementation by the correspondence run.
 -/
 import FendModel.Proofs.Format
+import FendModel.Proofs.NumLitScan
+import FendModel.Proofs.FormatLayout
 
 namespace Fend.C02
 open Fend.Fmt Fend.NumLit
@@ -101,6 +103,98 @@ theorem exponent_value (b : Nat) (i e : List Nat) :
 /-- positional notation: a digit string denotes Σ dᵢ·bⁱ (stated as the recurrence) -/
 theorem positional (b d : Nat) (t : List Nat) : valDigits b (d :: t) = d * b ^ t.length + valDigits b t :=
   valDigits_cons b d t
+
+/-! ### the round trip at the level of TEXT: the lexer run on the characters the renderer prints
+
+`(b, p)` ranges over the renderings fend can read back by itself: binary / octal / hexadecimal with their `0b` / `0o` / `0x`
+prefix and plain decimal. -/
+
+def Readable (b : Nat) (p : Pfx) : Prop := ((b = 2 ∨ b = 8 ∨ b = 16) ∧ p = .zero) ∨ (b = 10 ∧ p = .plain)
+
+/-- the text printed for an integer is read back, character by character, as that integer -/
+theorem integer_text_roundtrip (b : Nat) (p : Pfx) (hr : Readable b p) (sep th : Char) (hs : SepOK sep th) (n : Nat) :
+    ∃ parts, parseNumber sep th (fmtRat ⟨b, p, .exactFloat, sep⟩ false n 1).1 = .ok (.num parts [], p) ∧ litValue parts = (n : Rat) := by
+  have htxt : (fmtRat ⟨b, p, .exactFloat, sep⟩ false n 1).1 = (fmtNat p b n none).1 := by simp [fmtRat, signed]
+  rw [htxt]
+  rcases hr with ⟨hb, rfl⟩ | ⟨rfl, rfl⟩
+  · have hb2 : 2 ≤ b := by rcases hb with rfl | rfl | rfl <;> omega
+    exact ⟨_, scan_zero_prefix b hb sep th hs n, (integer_roundtrip b n hb2).1⟩
+  · exact ⟨_, scan_plain_decimal sep th hs n, (integer_roundtrip 10 n (by omega)).1⟩
+
+/-- the text printed for a non-terminating fraction, `I.A(B)`, is what `fmtRat` produces … -/
+theorem recurring_text (b : Nat) (p : Pfx) (hb : 2 ≤ b) (sep : Char) (num den mu lam : Nat) (hden1 : den ≠ 1)
+    (hnt : terminates b den = false) (h : findCycle b den (num % den) = some (mu, lam)) :
+    (fmtRat ⟨b, p, .exactFloat, sep⟩ false num den).1 =
+      prefixChars p b ++ recurText b sep (num / den) (digitsFrom b den (num % den) mu) (digitsFrom b den (remAt b den (num % den) mu) lam) := by
+  have hft := fmtNat_text p b (num / den) hb
+  simp only [fmtRat, hden1, if_false, hnt]
+  simp [h, signed, recurText, hft]
+
+/-- … and it is read back, character by character, as exactly `num/den` -/
+theorem recurring_text_roundtrip (b : Nat) (p : Pfx) (hr : Readable b p) (sep th : Char) (hs : SepOK sep th)
+    (num den mu lam : Nat) (hden : 0 < den) (hden1 : den ≠ 1) (hnt : terminates b den = false)
+    (h : findCycle b den (num % den) = some (mu, lam)) :
+    ∃ parts, parseNumber sep th (fmtRat ⟨b, p, .exactFloat, sep⟩ false num den).1 = .ok (.num parts [], p) ∧
+      litValue parts = (num : Rat) / den := by
+  have hb2 : 2 ≤ b := by rcases hr with ⟨hb, _⟩ | ⟨rfl, _⟩; rcases hb with rfl | rfl | rfl <;> omega; omega
+  obtain ⟨hlam, _⟩ := findCycle_spec b den (num % den) mu lam h
+  have hr0 : num % den < den := Nat.mod_lt _ hden
+  have ha := digitsFrom_lt b den (num % den) (by omega) hr0 mu
+  have hc := digitsFrom_lt b den (remAt b den (num % den) mu) (by omega) (remAt_lt b den _ mu hr0) lam
+  have hcne : digitsFrom b den (remAt b den (num % den) mu) lam ≠ [] := by
+    intro hnil
+    have := digitsFrom_length b den (remAt b den (num % den) mu) lam
+    rw [hnil] at this; simp at this; omega
+  rw [recurring_text b p hb2 sep num den mu lam hden1 hnt h]
+  have hval := rendered_recurring_roundtrip b num den mu lam hb2 hden h
+  rcases hr with ⟨hb, rfl⟩ | ⟨rfl, rfl⟩
+  · exact ⟨_, scan_zero_prefix_recurring b hb sep th hs _ _ _ ha hc hcne, hval⟩
+  · exact ⟨_, by simpa [prefixChars] using scan_plain_decimal_recurring sep th hs _ _ _ ha hc hcne, hval⟩
+
+/-- the text printed for a terminating fraction, `I.A`: integer part, separator, the long-division digits up to the vanishing
+remainder without trailing zeros — read back, character by character, as exactly `num/den`.  `k` is the number of steps after
+which the remainder vanishes (it exists because the expansion terminates; the renderer's own budget `den + 2` covers it) -/
+theorem terminating_text_roundtrip (b : Nat) (p : Pfx) (hr : Readable b p) (sep th : Char) (hs : SepOK sep th)
+    (num den k : Nat) (hden : 0 < den) (hden1 : den ≠ 1) (hterm : terminates b den = true) (hr0 : num % den ≠ 0)
+    (hk : remAt b den (num % den) k = 0) (hbefore : ∀ j, j < k → remAt b den (num % den) j ≠ 0) (hfuel : k ≤ den + 1) :
+    ∃ parts, parseNumber sep th (fmtRat ⟨b, p, .exactFloat, sep⟩ false num den).1 = .ok (.num parts [], p) ∧
+      litValue parts = (num : Rat) / den := by
+  have hb2 : 2 ≤ b := by rcases hr with ⟨hb, _⟩ | ⟨rfl, _⟩; rcases hb with rfl | rfl | rfl <;> omega; omega
+  have hft := fmtNat_text p b (num / den) hb2
+  -- the text
+  have hloop := nonrec_text b den (num % den) .all (fun m => by simp) sep (prefixChars p b ++ (natDigits b (num / den)).map digitChar)
+    false (num / den == 0) k (fun j hj => ⟨hbefore j hj, by simp⟩) (Or.inl hk) (den + 2) (by omega)
+  set ds := digitsFrom b den (num % den) k with hds
+  -- the digits are not all zero
+  have hinv := longdiv_invariant b den (num % den) k
+  rw [hk, Nat.add_zero, ← hds] at hinv
+  have hvpos : valDigits b ds ≠ 0 := by
+    intro h0; rw [h0, Nat.mul_zero] at hinv
+    have : 0 < num % den * b ^ k := Nat.mul_pos (Nat.pos_of_ne_zero hr0) (Nat.pos_of_ne_zero (by positivity))
+    omega
+  have hsne : stripZ ds ≠ [] := by
+    intro hnil
+    have := strip_split ds
+    rw [hnil, List.nil_append] at this
+    rw [this, valDigits_zeros] at hvpos; exact hvpos rfl
+  have hlt : ∀ d ∈ stripZ ds, d < b := by
+    intro d hd
+    have hmem : d ∈ ds := by rw [strip_split ds]; exact List.mem_append_left _ hd
+    exact digitsFrom_lt b den (num % den) (by omega) (Nat.mod_lt _ hden) k d hmem
+  have htxt : (fmtRat ⟨b, p, .exactFloat, sep⟩ false num den).1 =
+      prefixChars p b ++ ((natDigits b (num / den)).map digitChar ++ sep :: (stripZ ds).map digitChar) := by
+    simp only [fmtRat, hden1, if_false, hterm]
+    simp [hloop, signed, renderDigits, hsne, hft]
+  rw [htxt]
+  -- the value
+  have hval : litValue ⟨b, natDigits b (num / den), some (stripZ ds), none, none⟩ = (num : Rat) / den := by
+    have h1 := terminating_roundtrip b num den k hb2 hden hk
+    rw [← hds] at h1
+    simp only [litValue, valDigits_natDigits b _ hb2, digitsFrom_length] at h1 ⊢
+    rw [← h1, stripZ_value b hb2 ds, hds, digitsFrom_length]
+  rcases hr with ⟨hb, rfl⟩ | ⟨rfl, rfl⟩
+  · exact ⟨_, scan_zero_prefix_terminating b hb sep th hs _ _ hlt hsne, hval⟩
+  · exact ⟨_, by simpa [prefixChars] using scan_plain_decimal_terminating sep th hs _ _ hlt hsne, hval⟩
 
 -- the scanner and the renderer on concrete literals / values (kernel-evaluated; these are tests, not the theorems)
 example : (fmtRat ⟨10, .plain, .exactFloat, '.'⟩ false 1 6).1 = "0.1(6)".toList := by decide +kernel
